@@ -14,7 +14,8 @@ RULE = ("Hypothesis-drawn validated histories (forks, multi-input/-output spends
         "same transaction mined on two forks and identical reward transactions on siblings) with a drawn batching of the "
         "accepted blocks into add_block_to_buffer / flush calls (directly and through DiskInterface + DefaultBlockStore) and a "
         "reload after EVERY flush (file closed, new BlockStore; also read through the writing connection); in 30% of the histories "
-        "another thread buffers the next block while a flush is inside its SQL write (schedule injection at that point). Oracle: "
+        "another thread buffers the next block while a flush is inside its SQL write (schedule injection at that point); through "
+        "the disk interface some batches are buffered, dropped from the buffer (as a rollback does) and handed over again. Oracle: "
         "read_blocks_from_disk() == written blocks + genesis: same id set, byte-identical serialize(), id == sha256d(header), "
         "parents before children; rebuilding as scripts.utils.read_chain_from_disk does raises nowhere, gives reference-equal "
         "unspent maps at every block and a head of the live height. A mismatch is classified against a deliberately faulty "
@@ -84,6 +85,13 @@ def execute(case):
                     if t.id() in seen_tx:
                         info["shared_ids"] = True
                     seen_tx.add(t.id())
+            if case.get("via") == "disk_interface" and case.get("resave"):
+                # what the relay path does when a bad block forces a rollback: the write buffer is emptied directly, and the
+                # good blocks, downloaded again, are handed to the disk interface a second time
+                store.write_buffer.clear()
+                for blk in batch:
+                    di.save_block(b.to_sk_block(blk))
+                info["resaved_batches"] = info.get("resaved_batches", 0) + 1
             racer = None
             if case.get("interleave") and pos < len(accepted):
                 # schedule injection: while this flush is inside its SQL write, another thread (the network thread in
@@ -225,7 +233,7 @@ def run(shard, tier, seed):
             k = min(left, rnd.choice([1, 1, 2, 3, 5]))
             batches.append(k)
             left -= k
-        case.update(batches=batches, via=via, form=form, interleave=rnd.random() < 0.3)
+        case.update(batches=batches, via=via, form=form, interleave=rnd.random() < 0.3, resave=rnd.random() < 0.4)
         try:
             fails, info = execute(case)
         except env.HarnessError as e:
